@@ -60,7 +60,9 @@ def build(rng, tier):
             inp = gen.nodup_input(r2, p, max_rows=8)
             for k in range(MAXK):
                 inst = f"{pid}_{j}_{k}"
-                ops = [f"eng new {inst} {pid}"] + engcheck.load_ops(inst, inp) + [f"eng runto {inst} {k}", f"eng dump {inst}", f"eng run {inst}", f"eng dump {inst}"]
+                # odd inputs: the Lean side is the physical-index engine model, which evaluates aggregation / negation through the index the plan chose (Props/C04Phys.lean, C13PhysAgg.lean)
+                rt, rn = ("runtop", "runp") if j % 2 == 1 else ("runto", "run")
+                ops = [f"eng new {inst} {pid}"] + engcheck.load_ops(inst, inp) + [f"eng {rt} {inst} {k}", f"eng dump {inst}", f"eng {rn} {inst}", f"eng dump {inst}"]
                 cases.append(engcheck.Case(pid, inst, ops, {"inp": inp, "kind": "agg-single", "k": k}))
     return progs, mods, cases
 
